@@ -12,8 +12,41 @@ NOTE = ("Decides the property on the executions this run produced (counts are in
         "trusted base: CPython 3.12 re/sys.monitoring, icontract, lxml, regex, the installed "
         "reporters-db/courts-db, and the generator / reference-model code under /verif/vmon.")
 
+CATEGORY = {"C14": "fault_enumeration"}
+
 CLAIMED = {
     # id: (technique, level text, design ref)
+    "C01": ("runtime monitor: ground-truth generator (side-channel truth of every written citation) vs. "
+            "get_citations; database-exhaustive literal forms + regex-parse-tree members of every pattern",
+            "Exact-component oracle held on every standard reporter string of the database in both minimal forms, "
+            "one/eight members of every pattern, all DB examples and N rich forms; known finding: parallel reporter "
+            "containing a parenthesis.", "§4/C01"),
+    "C13": ("runtime monitor: lossless-filter oracle (compiled regex as judge) on members sampled from every "
+            "extractor pattern + token-stream differential AC vs reference tokenizer on full and custom lists",
+            "Every one of the ~6,800 patterns sampled; regular-language inclusion itself is static and only decided "
+            "on the sampled members (stated gap).", "§4/C13"),
+    "C14": ("runtime monitor: candidate-level differential Hyperscan vs reference tokenizer with structural "
+            "genuineness validator + cache fault enumeration in journaled worker interpreters",
+            "Fault enumeration for the cache clause (truncation lengths, header bits, body bytes, garbage, append, "
+            "crash during write, concurrent construction; small and full database); exploration for the "
+            "drop-in clause; known finding: citations touching a multi-byte character.", "§4/C14"),
+    "C15": ("runtime monitor: history checker over (process, hash seed, thread, call index) events - fresh "
+            "interpreters per PYTHONHASHSEED, call-order permutations with snapshots, threads under "
+            "sys.monitoring yield injection",
+            "All serialisations of each (text, options) equal across 8/40 hash seeds, repeated calls and N threaded "
+            "calls with M forced switches at K distinct source lines.", "§4/C15"),
+    "C16": ("runtime monitor: equality/hash/Resource oracle against an independent key, exhaustive over the "
+            "database's (edition, variation) pairs + all pairs of generated pools + normal-form round trip",
+            "Exhaustive for the standard-template variation pairs of the installed reporters-db; pools sampled.",
+            "§4/C16"),
+    "C19": ("runtime monitor: markup-mode vs cleaned-plain-mode differential + well-foundedness oracle for "
+            "every reference citation",
+            "Held on N marked-up documents producing M reference citations (markup-derived and pin-cited).",
+            "§4/C19"),
+    "C20": ("runtime monitor: independent run-collapser models, composition/idempotence laws (exhaustive small "
+            "strings), visible-text oracle on generated element trees",
+            "Exhaustive for strings <= 6 over a 5-symbol alphabet and all step lists <= 3; trees sampled.",
+            "§4/C20"),
     "C02": ("runtime monitor: offset/slice/pin-span oracle at the get_citations boundary over dense hostile "
             "documents, plain + markup mode, three tokenizers",
             "Held on N observed extractions (every citation kind, each tokenizer, markup mode) of adversarial "
@@ -77,7 +110,7 @@ def main():
                 evidence_file=f"/verif/evidence/{pid}.json",
                 replay_cmd_template=f"./check {pid} --replay {{path}}",
                 engine="vmon",
-                level_claimed=dict(category="exploration", text=text, design_ref=ref),
+                level_claimed=dict(category=CATEGORY.get(pid, "exploration"), text=text, design_ref=ref),
                 level_note=NOTE,
                 technique=tech,
             ))
